@@ -36,7 +36,7 @@ TIERS = {
 }
 RULE = ('seeded runs: an edit history (2-14 ops, op mix / rule subset / name set drawn per run) over a fixed rule '
         'universe with shared prefixes, prefix splits, wildcard siblings, filter conflicts, two syntaxes of one pattern '
-        'and hook-only prefixes; sweep units: every op sequence of length <= 2 (quick) / every op triple, in seeded order as far as the budget reaches '
+        'and hook-only prefixes; sweep units: every op sequence of length <= 2 (quick) '
         '(thorough: every triple, in seeded order as far as the budget reaches) over a reduced op alphabet, each after a fixed prelude. A run is non-trivial when at least '
         'one edit was rejected by the router (the injected fault) or at least one removal / hook removal changed the '
         'tree. distinct = distinct digests of (op list) among non-trivial runs; states = distinct canonical '
